@@ -68,9 +68,10 @@ def st_case(draw, tier):
     if kind == "norm_recipe":
         # the Taylor recipe of the norm factor (1 + sum_n S^(n))^-1 is cheap
         # at any order: checked far beyond the derivable orders
+        mo = draw(st.sampled_from([1, 2, 2, 2, 3]))
         return {"variant": variant, "singles": singles, "kind": kind,
-                "order": draw(st.integers(0, 10)),
-                "min_order": draw(st.sampled_from([1, 2, 2, 2, 3])),
+                "order": draw(st.integers(0, 7 if mo == 1 else 10)),
+                "min_order": mo,
                 "size": [2, 2], "canonical": True,
                 "mseed": draw(st.integers(0, 2**31))}
     max_o = 3 if tier == "quick" else 4
@@ -118,6 +119,10 @@ def run_case(case):
     gs = gs_obj(variant, singles)
     if kind == "norm_recipe":
         n, mo = case["order"], case["min_order"]
+        # the library enumerates product(range(mo, n + 1), repeat=k) for
+        # every k <= n // mo: keep that enumeration small
+        if mo < 1 or (n - mo + 1) ** (n // mo) > 10**6:
+            raise BadCase("recipe enumeration too large")
         r.sample = f"GroundState({variant}).expand_norm_factor({n}, {mo})"
         ok, rec = lib_call(r, "expand_norm_factor", gs.expand_norm_factor, n,
                            mo)
